@@ -40,6 +40,8 @@ func runC13(c *Ctx) {
 		c19ArgPrefix(c)
 		c.RulePrefix = saved
 	}
+	// `fsck --pointers` reports a file as a non-pointer through the decoder's verdict: only zero bytes are the empty pointer
+	emptyShortcutRule(c, "R4")
 	noFetchIncludeIn(c, "R1", "fsck examines every object except those under lfs.fetchexclude: with lfs.fetchinclude set, corrupt objects outside the include patterns are neither reported nor moved aside", "fsckCommand", "doFsckObjects", "doFsckPointers")
 	treeListingsCoverWholeTree(c, "R5")
 	attrFilterKeepsOptOuts(c, "R4")
@@ -456,6 +458,7 @@ func runC13(c *Ctx) {
 }
 
 var c13Canaries = []Canary{
+	{Name: "r6-rev-list-close-error-dropped", ExpectKey: "C13.R6#rev-list:close-error-reported", Edits: []Edit{{File: "lfs/gitscanner_refs.go", Find: "\terrs := make(chan error, 5) // may be multiple errors\n\n\tgo func() {\n\t\tfor revListScanner.Scan() {\n\t\t\tsha := hex.EncodeToString(revListScanner.OID())\n\t\t\tif name := revListScanner.Name(); len(name) > 0 {\n", Repl: "\terrs := make(chan error, 5) // may be multiple errors\n\n\tgo func() {\n\t\tdefer close(errs)\n\t\tdefer close(revs)\n\t\tdefer revListScanner.Close()\n\n\t\tfor revListScanner.Scan() {\n\t\t\tsha := hex.EncodeToString(revListScanner.OID())\n\t\t\tif name := revListScanner.Name(); len(name) > 0 {\n"}, {File: "lfs/gitscanner_refs.go", Find: "\t\t\trevs <- sha\n\t\t}\n\n\t\tif err = revListScanner.Err(); err != nil {\n\t\t\terrs <- err\n\t\t}\n\n\t\tif err = revListScanner.Close(); err != nil {\n\t\t\terrs <- err\n\t\t}\n\n\t\tclose(revs)\n\t\tclose(errs)\n\t}()\n\n\treturn NewStringChannelWrapper(revs, errs), nameMap, nil\n", Repl: "\t\t\trevs <- sha\n\t\t}\n\n\t\tif err := revListScanner.Err(); err != nil {\n\t\t\terrs <- err\n\t\t}\n\t}()\n\n\treturn NewStringChannelWrapper(revs, errs), nameMap, nil\n"}}},
 	{Name: "r5-ls-tree-full-name", ExpectKey: "C13.R5#git.LsTree", Edits: []Edit{{File: "git/git.go", Find: "\t\t\"--full-tree\", // start at the root regardless of where we are in it", Repl: "\t\t\"--full-name\", // start at the root regardless of where we are in it"}}},
 	{Name: "r4-source-name-first", ExpectKey: "C13.R3#index-entry-name", Edits: []Edit{{File: "lfs/gitscanner_index.go", Find: "\t\t\tvar name string = scanner.Entry().DstName\n\t\t\tif len(name) == 0 {\n\t\t\t\tname = scanner.Entry().SrcName", Repl: "\t\t\tvar name string = scanner.Entry().SrcName\n\t\t\tif len(name) == 0 {\n\t\t\t\tname = scanner.Entry().DstName"}}},
 	{Name: "ok-after-mismatch", ExpectKey: "C13.R1#fsckPointer", Edits: []Edit{{File: "commands/command_fsck.go", Find: "	Print(fmt.Sprintf(\"objects: corruptObject: %s\", tr.Tr.Get(\"%s (%s) is corrupt\", name, oid)))\n	return false, nil", Repl: "	Print(fmt.Sprintf(\"objects: corruptObject: %s\", tr.Tr.Get(\"%s (%s) is corrupt\", name, oid)))\n	return size < 0, nil"}}},
